@@ -209,6 +209,8 @@ def directed():
         # witnesses of the known findings and of the repaired defects (regression)
         ({'type': 'Number', 'bounds': [ev(inf), None], 'default': NONE}, NONE),
         ({'type': 'Integer', 'bounds': [None, ev(float('nan'))], 'default': NONE, 'allow_None': True}, NONE),
+        ({'type': 'Number', 'bounds': [ev(inf), ev(3)], 'default': NONE}, NONE),
+        ({'type': 'Number', 'bounds': [ev(-inf), ev(inf)], 'inclusive': [False, False]}, ev(2.5)),
         ({'type': 'Number', 'bounds': [ev(-inf), ev(3)]}, ev(1.5)),
         ({'type': 'Number', 'bounds': [ev(0), ev(inf)]}, ev(1.5)),
         ({'type': 'Range', 'bounds': [ev(-inf), None]}, ev((1, 2))),
@@ -332,11 +334,6 @@ def classify(case, impl, fail):
         return None
     t = d['type']
     if what.startswith('schema is not a well-formed'):
-        if t in ('Integer', 'Number', 'Range') and d.get('bounds'):
-            lo, hi = d['bounds']
-            # -inf below / +inf above are skipped by declare_numeric_bounds; the other non-finite bounds are not
-            if (_nonfinite(lo) and lo['v'] != '-inf') or (_nonfinite(hi) and hi['v'] != 'inf'):
-                return 'wrong-side-infinite-or-nan-bound-in-schema'
         return None
     if not what.startswith('serialized value does not validate'):
         return None
